@@ -8,6 +8,7 @@ import JubakoModel.Lemmas.Mask
 import JubakoModel.Lemmas.DamageFile
 import JubakoModel.Model.DirLayout
 import JubakoModel.Lemmas.FuncsParse
+import JubakoModel.Lemmas.FuncsCheck
 
 namespace Jubako
 
@@ -224,5 +225,14 @@ example :
 theorem c05_property_parser_is_source_parser (bs : Bytes) :
     (Generated.rawPropertyParse bs).Same ((RawProp.decode bs).map' (fun x => (x.1.toSrcRaw, x.2))) :=
   gen_rawPropertyParse bs
+
+/-- **The check every block read goes through is the source's**: `checkBlock` — over which
+    `c05_crc_detects_window` and `c05_damaged_block_reported` are stated — is `assert_slice_crc` as translated from
+    `bases/block.rs` on every run: a block is accepted iff the CRC-32C of its data equals its last four bytes read
+    big-endian, and refused as "corrupted" otherwise. -/
+theorem c05_block_check_is_source_check (full : Bytes) :
+    Generated.assertSliceCrc (fun d => (crc32c d).toNat) be32Nat full =
+      if checkBlock full then .ok () else .err .corrupted :=
+  gen_assertSliceCrc full
 
 end Jubako
